@@ -1,5 +1,5 @@
 CONSTANTS MaxElems = 2 SerMax = 1000
 SPECIFICATION Spec
 CONSTRAINT Slim
-INVARIANTS ChainLaw RetainLaw Emit
+INVARIANTS ChainLaw RetainLaw Emit EmitBulk
 CHECK_DEADLOCK FALSE
